@@ -583,7 +583,15 @@ fn chain_ladder(sh: &mut Shard) {
         case(sh, "chain-ladder", &format!("[ {} ]", etext.join(" ")), &[es(array(elems.clone()))], true);
         if n <= 255 {
             case(sh, "chain-ladder", &format!("f ( {} )", etext.join(" , ")), &[es(calln("f", elems.clone()))], true);
+            // a comma after the last argument / element / parameter changes nothing (every list length has its own parity)
+            case(sh, "chain-ladder", &format!("f ( {} , )", etext.join(" , ")), &[es(calln("f", elems.clone()))], true);
+            case(sh, "chain-ladder", &format!("f ( {} , )", etext.join(" ")), &[es(calln("f", elems.clone()))], true);
+            let params: Vec<String> = (0..n).map(|i| format!("p{i}")).collect();
+            let pr: Vec<&str> = params.iter().map(|s| s.as_str()).collect();
+            case(sh, "chain-ladder", &format!("functie g ( {} , ) {{ 1 }}", params.join(" , ")), &[es(func("g", &pr, vec![es(int(1))]))], true);
+            case(sh, "chain-ladder", &format!("functie g ( {} ) {{ 1 }}", params.join(" ")), &[es(func("g", &pr, vec![es(int(1))]))], true);
         }
+        case(sh, "chain-ladder", &format!("[ {} , ]", etext.join(" , ")), &[es(array(elems.clone()))], true);
         let stmts: Vec<Stmt> = elems.iter().cloned().map(es).collect();
         case(sh, "chain-ladder", &etext.join(" ; "), &stmts, true);
         case(sh, "chain-ladder", &format!("{{ {} }}", etext.join(" ; ")), &[Stmt::Block(stmts.clone())], true);
